@@ -419,7 +419,7 @@ func matchServed(c StackCase, q Req, o Outcome, ob *observation, typed bool) str
 		}
 		if authzDenies(c.Authz) {
 			st, msg := authzExpect(c.Authz)
-			if ob.status != st || ob.message != msg {
+			if !authzAnswerOK(c.Authz, ob.status, ob.message) {
 				return fmt.Sprintf("want the authorizer's answer %d %q", st, msg)
 			}
 			return nothingRan()
